@@ -23,7 +23,7 @@ Body   == {"empty", "ascii", "utf8", "invalid_utf8", "json_ok", "json_bad"}
 Expect == {"bytes", "string", "json"}
 Shell  == {"ok", "err_url", "err_io", "err_timeout"}
 Hdrs   == {"none", "one", "repeated", "mixed_case"}
-Api    == {"command", "capability"}
+Api    == {"command", "capability", "bridge_bin", "bridge_json"}    \* bridge: capability API behind the serialized bridge
 
 Mode == IOEnv.MODE     \* "product": representative statuses x all dimensions; "sweep": every status
 
